@@ -15,7 +15,7 @@ from typing import Any, Callable, Iterable
 
 VERIF = Path(__file__).resolve().parent.parent
 REPO = Path(os.environ.get("VERIF_REPO", "/repo"))
-LEAN_DIR = VERIF / "lean"
+LEAN_DIR = Path(os.environ.get("VERIF_LEAN_DIR", str(VERIF / "lean")))  # override only for development in a private copy
 DRIVER = LEAN_DIR / ".lake" / "build" / "bin" / "driver"
 EVIDENCE_DIR = VERIF / "evidence"
 REPLAY_DIR = VERIF / "replays"
